@@ -37,6 +37,53 @@ def inherited_run(bindir, r, P, k):
         pp.close()
 
 
+def error_exit_project(r):
+    """all -> b -> {s0..sk, all}: the redo-ifchange inside b.do has started the
+    slow s-jobs when it trips over the cycle and leaves through an error path
+    (exit 208) with those jobs still running: their tokens must be re-created."""
+    k = r.randint(2, 4)
+    P = {"all": (["b"], 5, False, False, False)}
+    for i in range(k):
+        P["s%d" % i] = ([], r.randint(150, 300), False, False, False)
+    P["b"] = (["s%d" % i for i in range(k)] + ["all"], 5, False, False, False)
+    return P, k
+
+
+def error_exit_runs(bindir, r, n, viol, dist):
+    events = 0
+    for i in range(n):
+        P, k = error_exit_project(r)
+        inherited = (i % 2 == 1)
+        j = r.randint(2, k + 1)
+        case = {"shape": "error-exit (cycle found with jobs running)", "slow_jobs": k, "jobs": j, "inherited": inherited}
+        if inherited:
+            rr, left, val, ws = inherited_run(bindir, r, P, j - 1)
+            if left != j - 1:
+                viol.append(dict(case, what="inherited jobserver: %d tokens preloaded, %d left after redo ended on an error exit" % (j - 1, left), stderr=rr["err"][-600:]))
+        else:
+            pp = par.ParProject(bindir, P, "c08e")
+            try:
+                rr = pp.run(["redo", "all"], jobs=j, log=False)
+                val = pp.validate_tokens()
+                if os.path.exists(pp.toktrace):
+                    dist["abandon_events"] += sum(1 for l in open(pp.toktrace) if " abandon " in l)
+            finally:
+                pp.close()
+        case["model"] = val
+        case["rc"] = rr["rc"]
+        if rr["rc"] == 0:
+            viol.append(dict(case, what="a cyclic build reported success"))
+        for pb in par.problems(rr):
+            if pb["what"] in ("token self-test failed", "panic", "hang"):
+                viol.append(dict(case, **pb))
+        if not val.startswith("OK"):
+            viol.append(dict(case, what="token trace rejected by the model", verdict=val))
+        else:
+            events += int(val.split("events=")[1].split()[0])
+        dist["error_exit"] += 1
+    return events
+
+
 def run(res):
     t = common.tier()
     r = common.rng("c08")
@@ -48,7 +95,7 @@ def run(res):
     nruns = 28 if t == "quick" else 200
     viol, samples = [], []
     events = 0
-    dist = {"jobs": {}, "shape": {}, "log": 0, "failing": 0, "keep_going": 0, "inherited": 0, "cheats_seen": 0}
+    dist = {"jobs": {}, "shape": {}, "log": 0, "failing": 0, "keep_going": 0, "inherited": 0, "cheats_seen": 0, "error_exit": 0, "abandon_events": 0}
     bound_checked = 0
     for i in range(nruns):
         cheat_prone = (i % 3 == 0)
@@ -99,6 +146,7 @@ def run(res):
             viol.append(dict(case, what="%d scripts doing work at once with a limit of %d" % (mo, n_allowed)))
         if len(samples) < 4:
             samples.append(case)
+    events += error_exit_runs(bindir, r, 8 if t == "quick" else 60, viol, dist)
     cov = dict(proof)
     cov.update({
         "trusted_base": ["Coq 8.16.1 kernel", "extraction (ExtrOcamlBasic only) + ocaml/driver.ml (trace validator)",
@@ -106,7 +154,7 @@ def run(res):
                          "model is hand-written: theories/Tokens/Model.v"],
         "evaluations": nruns,
         "distinct_nontrivial": sum(v for k, v in dist["jobs"].items() if k > 1),
-        "rule": "random projects (fan, two-level fan with a shared leaf, chain, diamond, mixed DAG) built by the real binaries at -j1..8, with and without log capture, with failing scripts with/without -k, and under an inherited jobserver preloaded with 0..3 tokens; every token-book event of every process is replayed through the extracted model; non-trivial = run with -j > 1",
+        "rule": "random projects (fan, two-level fan with a shared leaf, chain, diamond, mixed DAG) built by the real binaries at -j1..8, with and without log capture, with failing scripts with/without -k, and under an inherited jobserver preloaded with 0..3 tokens, plus error exits (a dependency cycle found while sibling jobs are still running, own and inherited jobserver); every token-book event of every process is replayed through the extracted model; non-trivial = run with -j > 1",
         "samples": samples,
         "input_distribution": dist,
         "traces_validated_against_impl": nruns,
